@@ -135,5 +135,8 @@ harnesses! {
     fn c19_q_trim_dna_all_bad [10] { trim_concrete!(Dna, oracle::DNA, b"nx7 ", 4) }
     fn c19_t_trim_iupac_lower_flanks [10] { trim_concrete!(Iupac, oracle::IUPAC, b"nnAC-Nn", 7) }
     fn c19_t_trim_text_padded [12] { trim_concrete!(text::Dna, oracle::TEXT, b"xxANGx", 6) }
+    fn c19_q_trim_dna_two_interior_bad [10] { trim_concrete!(Dna, oracle::DNA, b"AxNG", 4) }
+    fn c19_q_to_text_o30_n9 [12] { convert!(text::Dna, 30, 9, dna_to_text) }
+    fn c19_t_to_iupac_o30_n17 [20] { convert!(Iupac, 30, 17, oracle::dna_to_iupac) }
     fn c19_q_trim_dna_empty [10] { let r = Seq::<Dna>::trim_u8(&[]); assert!(r.is_ok() && r.unwrap().len() == 0, "C19.trim.empty"); reach!("end"); }
 }
